@@ -20,6 +20,9 @@
                      the deferred WPIMULT factors of the report step being processed
     st   : StatMap   well name ↦ well status
     mark : wells carrying ACTIONX_WELL_EVENT at this report step
+    ev   : wells carrying WELL_STATUS_CHANGE at this report step (`Schedule::updateWellStatus`, the
+           only emitter: the status written differs from the status the well had); written from
+           the status channel, read by nothing
 
   A *property* record operation reads `p` and — of the connection channel — only whether a well
   has connections at all (`e : String → Bool`), and produces a new `p` plus a list of status
@@ -328,6 +331,8 @@ structure State where
   c : ConnChan := {}
   st : StatMap := []
   mark : List String := []
+  /-- wells with a WELL_STATUS_CHANGE event in the report step being processed -/
+  ev : List String := []
 deriving DecidableEq, Repr
 
 /-! ### small association-list toolkit -/
@@ -354,6 +359,12 @@ def statusOf (st : StatMap) (w : String) : Status := (lookup st w).getD .shut
 
 def applyWrites (st : StatMap) (ws : List (String × Status)) : StatMap :=
   ws.foldl (fun m (w : String × Status) => setKey m w.1 w.2) st
+
+/-- The WELL_STATUS_CHANGE events of a list of status writes (`Schedule::updateWellStatus`: an
+event when the new status differs from the old one), in the order of the writes. -/
+def evWrites : StatMap → List (String × Status) → List String
+  | _, [] => []
+  | st, ws :: r => (if statusOf st ws.1 = ws.2 then [] else [ws.1]) ++ evWrites (setKey st ws.1 ws.2) r
 
 def dedup : List String → List String
   | [] => []
@@ -975,7 +986,7 @@ def stepR (k : Consts) (m : List String) (s : State) (r : ROp) : Except Err Stat
   else
     match stepP k m (emp s.c) s.p r with
     | .error e => .error e
-    | .ok (p', ws) => .ok { s with p := p', st := applyWrites s.st ws }
+    | .ok (p', ws) => .ok { s with p := p', st := applyWrites s.st ws, ev := s.ev ++ evWrites s.st ws }
 
 def runOps (k : Consts) (m : List String) (s : State) : List ROp → Except Err State
   | [] => .ok s
@@ -1020,16 +1031,17 @@ well list and the connection channel only. -/
 def endReportWrites (p : Props) (c : ConnMap) : List (String × Status) :=
   (names p.wells).flatMap fun w => if allShut (connsOf c w) then [(w, Status.shut)] else []
 
-def endReport (s : State) : State := { s with st := applyWrites s.st (endReportWrites s.p s.c.m) }
+def endReport (s : State) : State :=
+  { s with st := applyWrites s.st (endReportWrites s.p s.c.m), ev := s.ev ++ evWrites s.st (endReportWrites s.p s.c.m) }
 
 /-- End of a block (and of `applyAction`'s handler loop): deferred WPIMULT, then end_report. -/
 def closeBlock (s : State) : State := endReport { s with c := applyGlobal s.c }
 
-/-- `create_next`: the new snapshot is a copy with the per-step event marker reset, the
+/-- `create_next`: the new snapshot is a copy with the per-step events (marker, status changes) reset, the
 report-step counter advanced and a one-shot NEXTSTEP dropped; the deferred WPIMULT map of the
 iteration is a fresh local. -/
 def createNext (s : State) : State :=
-  { s with mark := [],
+  { s with mark := [], ev := [],
            p := { s.p with nstep := s.p.nstep + 1,
                            nextstep := match s.p.nextstep with
                              | some (v, true) => some (v, true)
